@@ -24,6 +24,9 @@
  *     (crypto/crypto_aesctr.c under LIBCPERCIVA_VERIF: state as after
  *     <startblock> whole blocks); <ref> is the model at the absolute position
  *     (data byte j XOR keystream byte 16*<startblock>+j).
+ *  W <al> <crc32c|sha256> <one|gib> <d> <blockhex>
+ *                                     2^32+d bytes in ONE Update call (one) or
+ *                                     in calls of 2^30 bytes (gib)  -> R <crc|digest>
  *  Z                                  -> R Z <counter>=<n> ... disabled=<list|->
  * <ref> is common/refaes.c; the comparison is made by vlib/c03.py.
  *
@@ -42,6 +45,26 @@
  * If the process dies by abort() (sanitizer report, assert) after such a call,
  * a line "C03-USED-AFTER-DISABLE <impl>:<entry point>... disabled=<list>" is
  * the last thing written to stderr.
+ *
+ * "Faulty AES-NI" variants: `c03 --fault=<f>[,<f>...]`, <f> in
+ *   aesni-kx256   crypto_aes_key_expand_aesni delivers one wrong round-key bit
+ *                 for EVERY 32-byte key (always, not only in the self-test);
+ *   aesni-kx128   the same for every 16-byte key;
+ *   aesni-blk256  crypto_aes_encrypt_block_aesni delivers one wrong output bit
+ *                 whenever the key has 14 rounds (was expanded from 32 bytes).
+ * The implementation is persistently wrong for one key size only; the
+ * library's start-up self-test (one vector per key size) has to notice, warn
+ * and never use AES-NI.  inj_aesni counts the faults delivered, after_aesni
+ * the calls of any AES-NI entry point made after the library's "Disabling
+ * HW_X86_AESNI" warning.
+ *
+ * Allocation-failure histories: `c03 oomhist <k> <spec> [<seed>]` (no line
+ * protocol; common/aes_oomhist.h): one history of key expansions, blocks and
+ * CTR streams in this fresh process, the k-th allocation attempt of the
+ * library fails once.  The answer line ends with " Z <counters>"; after_aesni
+ * again counts AES-NI calls made after a "Disabling HW_X86_AESNI" warning (a
+ * self-test that failed for lack of memory settles the choice for the process:
+ * keys of the two implementations have different formats).
  */
 #define _GNU_SOURCE	/* memfd_create */
 #include "vh.h"
@@ -62,6 +85,8 @@
 #include "crypto_aesctr.h"
 #include "refaes.h"
 #include "sha256.h"
+
+#include "aes_oomhist.h"
 
 extern int c03_stub_calls;
 
@@ -84,6 +109,14 @@ static uint64_t n_after[I_N];		/* calls after the injected failure */
 static const char * first_after[I_N];	/* entry point of the first such call */
 static char abort_marker[512];
 static volatile sig_atomic_t abort_marker_len;
+
+/* ---- persistently faulty AES-NI (--fault=...), calls after the warning ---- */
+enum { F_KX256 = 0, F_KX128, F_BLK256, F_N };
+static const char * const fault_name[F_N] = { "aesni-kx256", "aesni-kx128",
+	"aesni-blk256" };
+static int fault_req[F_N];
+static int watch_aesni;		/* --fault / oomhist: count calls after the warning */
+static int aesni_warned;	/* "Disabling HW_X86_AESNI ..." was printed */
 
 static void
 on_abort(int sig)
@@ -216,9 +249,42 @@ __wrap_CRC32C_Update_SSE42(uint32_t state, const uint8_t * buf, size_t len)
 #if defined(CPUSUPPORT_X86_AESNI)
 void * __real_crypto_aes_key_expand_aesni(const uint8_t *, size_t);
 void * __wrap_crypto_aes_key_expand_aesni(const uint8_t *, size_t);
+
+/* Key size behind every pointer crypto_aes_key_expand_aesni returned lately. */
+static struct { const void * p; size_t len; } aesni_keys[64];
+static size_t aesni_keys_next;
+
+static void
+aesni_key_note(const void * p, size_t len)
+{
+	size_t i;
+
+	if (p == NULL)
+		return;
+	for (i = 0; i < 64; i++)
+		if (aesni_keys[i].p == p)
+			break;
+	if (i == 64)
+		i = aesni_keys_next++ % 64;
+	aesni_keys[i].p = p;
+	aesni_keys[i].len = len;
+}
+
+static size_t
+aesni_key_len(const void * p)
+{
+	size_t i;
+
+	for (i = 0; i < 64; i++)
+		if (aesni_keys[i].p == p)
+			return (aesni_keys[i].len);
+	return (0);
+}
+
 void *
 __wrap_crypto_aes_key_expand_aesni(const uint8_t * key, size_t len)
 {
+	uint8_t * k;
 
 	n_aesni_kx++;
 	if (fail_req[I_AESNI]) {
@@ -235,7 +301,17 @@ __wrap_crypto_aes_key_expand_aesni(const uint8_t * key, size_t len)
 			used_after_disable(I_AESNI,
 			    "crypto_aes_key_expand_aesni");
 	}
-	return (__real_crypto_aes_key_expand_aesni(key, len));
+	if (watch_aesni && aesni_warned)
+		used_after_disable(I_AESNI, "crypto_aes_key_expand_aesni");
+	k = __real_crypto_aes_key_expand_aesni(key, len);
+	aesni_key_note(k, len);
+	/* Faulty implementation: one wrong round-key bit for this key size. */
+	if (k != NULL && ((fault_req[F_KX256] && len == 32) ||
+	    (fault_req[F_KX128] && len == 16))) {
+		k[47] ^= 0x10;
+		n_inj[I_AESNI]++;
+	}
+	return (k);
 }
 
 void __real_crypto_aes_encrypt_block_aesni(const uint8_t *, uint8_t *,
@@ -248,9 +324,15 @@ __wrap_crypto_aes_encrypt_block_aesni(const uint8_t * in, uint8_t * out,
 {
 
 	n_aesni_blk++;
-	if (fail_req[I_AESNI] && n_inj[I_AESNI])
+	if ((fail_req[I_AESNI] && n_inj[I_AESNI]) ||
+	    (watch_aesni && aesni_warned))
 		used_after_disable(I_AESNI, "crypto_aes_encrypt_block_aesni");
 	__real_crypto_aes_encrypt_block_aesni(in, out, key);
+	/* Faulty implementation: wrong whenever the key has 14 rounds. */
+	if (fault_req[F_BLK256] && aesni_key_len(key) == 32) {
+		out[5] ^= 0x04;
+		n_inj[I_AESNI]++;
+	}
 }
 
 void __real_crypto_aesctr_aesni_stream(struct crypto_aesctr *, const uint8_t *,
@@ -263,7 +345,8 @@ __wrap_crypto_aesctr_aesni_stream(struct crypto_aesctr * stream,
 {
 
 	n_aesni_ctr++;
-	if (fail_req[I_AESNI] && n_inj[I_AESNI])
+	if ((fail_req[I_AESNI] && n_inj[I_AESNI]) ||
+	    (watch_aesni && aesni_warned))
 		used_after_disable(I_AESNI, "crypto_aesctr_aesni_stream");
 	__real_crypto_aesctr_aesni_stream(stream, in, out, len);
 }
@@ -315,6 +398,8 @@ __wrap_libcperciva_warnx(const char * fmt, ...)
 				strcat(disabled, ",");
 			strcat(disabled, name);
 		}
+		if (strstr(d, "Disabling HW_X86_AESNI") == d)
+			aesni_warned = 1;
 	}
 	__real_libcperciva_warnx("%s", msg);
 }
@@ -451,6 +536,47 @@ parse_fail(const char * list)
 	}
 }
 
+/* --fault=<f>[,<f>...] */
+static void
+parse_fault(const char * list)
+{
+	const char * p = list;
+
+#if !defined(CPUSUPPORT_X86_AESNI)
+	vh_die("--fault: AES-NI is not compiled into this variant");
+#endif
+	while (*p) {
+		size_t n = strcspn(p, ",");
+		int k, hit = 0;
+
+		for (k = 0; k < F_N; k++) {
+			if (strlen(fault_name[k]) == n &&
+			    strncmp(p, fault_name[k], n) == 0) {
+				fault_req[k] = 1;
+				hit = 1;
+			}
+		}
+		if (!hit)
+			vh_die("--fault: bad list '%s'", list);
+		p += n;
+		if (*p == ',')
+			p++;
+	}
+	watch_aesni = 1;
+}
+
+/* End of the answer line of `c03 oomhist ...`. */
+static void
+oomhist_extra(FILE * f)
+{
+
+	fprintf(f, " Z aesni_kx=%" PRIu64 " aesni_blk=%" PRIu64
+	    " aesni_ctr=%" PRIu64 " ossl_key=%" PRIu64 " ossl_enc=%" PRIu64
+	    " warnings=%" PRIu64 " after_aesni=%" PRIu64 " disabled=%s",
+	    n_aesni_kx, n_aesni_blk, n_aesni_ctr, n_ossl_key, n_ossl_enc,
+	    n_warn, n_after[I_AESNI], disabled[0] ? disabled : "-");
+}
+
 /* One 2 MiB memory file mapped HUGE_NCHUNK times back to back (4 GiB + 2 MiB). */
 #define HUGE_CHUNK ((size_t)2 << 20)
 #define HUGE_NCHUNK ((size_t)2049)
@@ -483,18 +609,30 @@ int
 main(int argc, char ** argv)
 {
 	struct vh_line L = {0};
-	int rc, intr, ai;
+	int rc, intr, ai, oom_argi = 0;
 
 	vh_stdout_linebuf();
 	for (ai = 1; ai < argc; ai++) {
 		if (strncmp(argv[ai], "--fail-selftest=", 16) == 0) {
 			parse_fail(argv[ai] + 16);
 			signal(SIGABRT, on_abort);
+		} else if (strncmp(argv[ai], "--fault=", 8) == 0) {
+			parse_fault(argv[ai] + 8);
+			signal(SIGABRT, on_abort);
+		} else if (strcmp(argv[ai], "oomhist") == 0) {
+			oom_argi = ai;
+			break;
 		} else
 			vh_die("bad argument '%s'", argv[ai]);
 	}
 	if ((rc = refaes_selftest()) != 0)
 		vh_die("refaes self-test failed at step %d", rc);
+	if (oom_argi) {
+		/* The history starts in a process that has not used AES yet. */
+		watch_aesni = 1;
+		signal(SIGABRT, on_abort);
+		return (aes_oomhist_main(argc, argv, oom_argi, oomhist_extra));
+	}
 	/* Runs the AES self-test now, so that its calls are counted once. */
 	intr = crypto_aes_can_use_intrinsics();
 	while (vh_readline(&L, stdin)) {
@@ -763,6 +901,56 @@ main(int argc, char ** argv)
 			munmap(in, HUGE_NCHUNK * HUGE_CHUNK);
 			munmap(out, HUGE_NCHUNK * HUGE_CHUNK);
 			vh_free(lib); vh_free(ref); vh_free(kb);
+		} else if (op[0] == 'W') {
+			/*
+			 * W <al> <crc32c|sha256> <one|gib> <d> <blockhex>: a message
+			 * of 2^32 + d bytes given to ONE CRC32C_Update / SHA256_Update
+			 * call (one) or in calls of 2^30 bytes (gib).  The message
+			 * starts <al> bytes into an address range in which one 2 MiB
+			 * memory file (the block repeated) is mapped over and over.
+			 *                                     -> R <crc | digest>
+			 */
+			int crc = (strcmp(vh_tok(&L, 2), "crc32c") == 0);
+			int one = (strcmp(vh_tok(&L, 3), "one") == 0);
+			size_t extra = (size_t)vh_tok_u(&L, 4);
+			size_t blen, j, pos = 0;
+			uint8_t * b = vh_tok_hex(&L, 5, &blen);
+			size_t total = ((size_t)1 << 32) + extra;
+			size_t piece = one ? total : (size_t)1 << 30;
+			uint8_t * base, * msg;
+			uint8_t d[32];
+			CRC32C_CTX cc;
+			SHA256_CTX sc;
+
+			if (L.ntok != 6 || blen == 0 || HUGE_CHUNK % blen ||
+			    al + extra > HUGE_CHUNK || sizeof(size_t) < 8 ||
+			    (!crc && strcmp(vh_tok(&L, 2), "sha256")) ||
+			    (!one && strcmp(vh_tok(&L, 3), "gib")))
+				vh_die("bad W line");
+			base = huge_region(0);
+			for (j = 0; j < HUGE_CHUNK; j += blen)
+				memcpy(base + j, b, blen);
+			msg = base + al;
+			if (crc)
+				CRC32C_Init(&cc);
+			else
+				SHA256_Init(&sc);
+			while (pos < total) {
+				size_t n = (total - pos > piece) ? piece : total - pos;
+
+				if (crc)
+					CRC32C_Update(&cc, msg + pos, n);
+				else
+					SHA256_Update(&sc, msg + pos, n);
+				pos += n;
+			}
+			if (crc)
+				CRC32C_Final(d, &cc);
+			else
+				SHA256_Final(d, &sc);
+			answer(d, crc ? 4 : 32);
+			munmap(base, HUGE_NCHUNK * HUGE_CHUNK);
+			vh_free(b);
 		} else
 			vh_die("bad op %s", op);
 	}
